@@ -178,8 +178,7 @@ class Dispatcher:
         if pobj is None:
             raise NoSuchParameterError(f'Module {modulename!r} has no parameter {pname or exportedname!r}')
         if pobj.constant is not None:
-            # pobj.constant is already the serialised version of the constant
-            return pobj.constant, {'t': pobj.timestamp} if pobj.timestamp else {}
+            return pobj.datatype.export_value(pobj.constant), {'t': pobj.timestamp} if pobj.timestamp else {}
 
         # note: exceptions are handled in handle_request, not here!
         getattr(moduleobj, 'read_' + pname)()
